@@ -647,3 +647,53 @@ func init() {
 		Outside:     "live tensors above rank 3 / size 3, slices longer than 3, depth-4 nested data with lengths above 2; hangs are detected only as an exhausted step budget",
 	})
 }
+
+func init() {
+	var frameOps []string
+	for _, o := range c08OpNames {
+		frameOps = append(frameOps, o)
+	}
+	allChecks = append(allChecks, &Check{
+		ID: "C10", Level: "model_checking",
+		Harnesses: []Harness{
+			{Name: "C10_frame", Pkg: "zzh", Func: "H_C10_frame", Reach: []string{"done"},
+				What:  "every op (35 differentiable, Concat, 6 comparisons) on operands in any tracking state: the executor's store log shows no write to any pre-existing object; operands' shape, elements, flags, gradient and edges unchanged",
+				Items: func(string) []Item { return sItems("op", frameOps, items(map[string]int64{})) }},
+			{Name: "C10_backprop", Pkg: "zzh", Func: "H_C10_backprop", Reach: []string{"done"},
+				What:  "BackPropagate writes only gradient / spent fields; SGD.Update only the pointee; ResetGradContext only the receiver's context",
+				Items: func(string) []Item { return items(map[string]int64{}) }},
+			{Name: "C10_alias_shape", Pkg: "zzh", Func: "H_C10_alias_shape", Reach: []string{"done"},
+				What:  "dims / nested data / shape arguments and Shape() results overwritten with fresh solver values after the call: tensors and later gradients unaffected",
+				Items: func(string) []Item { return sItems("fn", []string{"Full", "TensorOf", "Reshape", "Broadcast", "Shape"}, rankItems(2, 2, 2, nil)) }},
+			{Name: "C10_alias_index", Pkg: "zzh", Func: "H_C10_alias_index", Reach: []string{"done"},
+				What:  "index ranges (Slice, Patch) and the tensor list (Concat) overwritten with solver-chosen values between the forward call and BackPropagate: gradients follow the arguments given at call time",
+				Items: func(string) []Item { return sItems("fn", []string{"Slice", "Patch", "Concat"}, items(map[string]int64{})) }},
+		},
+		Assumptions: []string{"the store log is exact for the interpreted code (every ssa.Store and builtin copy/append into an object allocated before the call); gonum/x-exp internals are stubbed", numericModel},
+		Outside:     "programs of more than one forward call followed by BackPropagate/Update; operand shapes other than the fixed small ones",
+	})
+}
+
+func init() {
+	allChecks = append(allChecks, &Check{
+		ID: "C20", Level: "other", Race: true,
+		Harnesses: []Harness{
+			{Name: "C20_forward", Pkg: "zzh", Func: "H_C20_forward", Reach: []string{"done"},
+				What:  "every op executed twice on the same shared operands (tracked leaves included): exact store log shows no write to any object that existed before; both runs give identical terms",
+				Items: func(string) []Item { return sItems("op", c08OpNames, items(map[string]int64{})) }},
+			{Name: "C20_layers", Pkg: "zzh", Func: "H_C20_layers", Reach: []string{"done"},
+				What:  "FC -> Softmax -> loss evaluated twice on shared tracked parameters / inputs: no shared write, identical results",
+				Items: func(string) []Item { return sItems("loss", []string{"CE"}, items(map[string]int64{})) }},
+			{Name: "C20_backprop", Pkg: "zzh", Func: "H_C20_backprop", Reach: []string{"done"},
+				What:  "a private tracked graph over shared untracked tensors is built and back-propagated: nothing shared is written",
+				Items: func(string) []Item { return items(map[string]int64{}) }},
+			{Name: "C20_rand", Pkg: "zzh", Func: "H_C20_rand", Reach: []string{"done"},
+				What:  "RandU / RandN write to no pre-existing qeep object (gonum's locked global source is a stub)",
+				Items: func(string) []Item { return items(map[string]int64{}) }},
+		},
+		Assumptions: []string{"meta-argument (not a solver verdict): under the Go memory model a data race needs two conflicting accesses of which one is a write; if no path of a goroutine's work writes to an object reachable by another goroutine, every interleaving is race-free and each goroutine computes its sequential result",
+			"gonum/x-exp rand's global source is locked (its contract); qeep has no package-level mutable state (the executor would log a store to a global)", numericModel},
+		Outside:     "schedules are not enumerated; goroutine counts and interleavings enter only through the read-only reduction",
+		Explanation: "Sequential write-footprint analysis by symbolic execution of the real code: for every forward op, layer/activation/loss evaluation, private-graph back-propagation and random constructor, on all explored paths, the exact store log contains no write to any object allocated before the work began (shared tensors, tracked parameters, globals), and repeating the computation yields syntactically identical result terms.  The step from 'no shared writes on any path' to 'no race under any interleaving' is the standard read-only argument, stated as an assumption, not explored by the solver.",
+	})
+}
